@@ -6,7 +6,7 @@ before it is used, (M) on the list model.  L = F is the property's own formulati
 M arbitrates and catches errors common to L and F.  During (L) a purity tap peeks every live
 array around every read-only step."""
 import numpy as np
-from ..core import CTX, attempt, held, violated, undefined, short
+from ..core import CTX, attempt, held, violated, undefined, short, deep_same
 from .. import gen, contracts, prog
 from . import c02
 
@@ -22,7 +22,7 @@ ANCHORS = ["raggedarray/base.py::RaggedBase._change_view", "raggedarray/base.py:
            "raggedshape.py::RaggedView.get_flat_indices", "raggedshape.py::RaggedView2._get_flat_indices"]
 LAZY_OBS = ["row", "elem", "rowscol", "ell", "empty", "maskidx", "subset", "padded", "getcol", "colcounts", "sum0", "sum1", "nonzero", "tolist", "sel", "cumsum", "diff",
             "sort", "unique", "concatself", "where", "zeros", "astype", "equals", "save", "tonp", "argmax1", "rslice", "repr", "meta"]
-FLOOR_TAGS = ["lazy-recv:" + o for o in LAZY_OBS] + ["view:RaggedView", "view:RaggedView2", "lazy-operand:assign:u", "lazy-operand:sel:u", "lazy-operand:ufra:u", "lazy-operand:concat:w",
+FLOOR_TAGS = ["dtype:float64", "dtype:int64"] + ["lazy-recv:" + o for o in LAZY_OBS] + ["view:RaggedView", "view:RaggedView2", "lazy-operand:assign:u", "lazy-operand:sel:u", "lazy-operand:ufra:u", "lazy-operand:concat:w",
                                                      "depth>=3", "class:A", "class:B"]
 FLOOR_MONITORS = ["c06:L=M", "c06:F=M", "c06:L=F", "purity-tap", "inv:ragged"]
 N_RANDOM = {"quick": 9000, "thorough": 200000}
@@ -46,7 +46,7 @@ def depth_of(steps):
 
 def run(case):
     steps = case["steps"]
-    tags = ["class:" + ("B" if case.get("hazard") else "A")]
+    tags = ["class:" + ("B" if case.get("hazard") else "A"), "dtype:" + steps[0].get("dtype", "int64")]
     if depth_of(steps) >= 3:
         tags.append("depth>=3")
     M = prog.run_model(steps)
@@ -68,11 +68,14 @@ def run(case):
     CTX.tick("c06:L=M")
     finalM, obsM = M
     for v in finalM:
-        if finalL.get(v) != finalM[v]:
+        if not deep_same(finalL.get(v), finalM[v]):
             return violated("variable %s ends as %s, a freshly built equal array would hold %s\n%s" % (v, short(finalL.get(v), 200), short(finalM[v], 200), pdesc),
                             tags + ["final-differs"], got=finalL.get(v), expected=finalM[v])
+    isf = steps[0].get("dtype", "int64") == "float64"
     for (si, g), (_, e) in zip(obsL, obsM):
-        if e is not None and norm(g) != norm(e):
+        if isf and steps[si]["what"] not in prog.FLOAT_OBS:
+            continue        # order-dependent float arithmetic: the model has no opinion, the two library runs are still compared below
+        if e is not None and not deep_same(norm(g), norm(e)):
             st = steps[si]
             return violated("step %d, %s(%s%s) gives %s, on a freshly built equal array it gives %s\n%s" % (si, st["what"], st["u"], "" if st["arg"] is None else ", %s" % short(st["arg"], 60),
                             short(g, 200), short(e, 200), pdesc), tags + ["obs-differs:" + st["what"]], got=g, expected=e)
@@ -85,10 +88,10 @@ def run(case):
         return violated("with freshly built intermediates the program raised %s: %s\n%s" % (type(F.exc).__name__, F.exc, pdesc), tags + ["raised-F"], got=F.tb)
     finalF, obsF = F.value[0], F.value[1]
     CTX.tick("c06:L=F")
-    if finalF != finalM:
+    if not deep_same(finalF, finalM):
         return violated("freshly built intermediates end as %s, the model says %s\n%s" % (short(finalF, 200), short(finalM, 200), pdesc), tags + ["F-differs"])
     for (si, g), (_, f) in zip(obsL, obsF):
-        if norm(g) != norm(f):
+        if not deep_same(norm(g), norm(f)):
             st = steps[si]
             return violated("step %d, %s(%s) gives %s on the derived array and %s on a freshly built equal array\n%s" % (si, st["what"], st["u"], short(g, 200), short(f, 200), pdesc),
                             tags + ["obs-differs:" + st["what"]], got=g, expected=f)
@@ -165,13 +168,31 @@ def directed():
                      {"op": "assign", "u": "a0", "rs": 1, "cs": None, "has_cs": False, "vk": "scalar", "val": 99}, {"op": "obs", "u": "a1", "what": "tolist", "arg": None}], "hazard": True}
     for _ in range(300):
         yield prog.gen_program(rng, "quick")
+    for _ in range(200):
+        yield prog.gen_program(rng, "quick", dtype="float64")
+    # a derived array combined with a hostile float column must equal the same operation on a freshly built equal array
+    F = [[0.1, 0.7], [1e17, 1.0, 0.3], [float("inf"), 2.0], [0.3, 0.1, 0.7, 1.0]]
+    for sel in [(slice(None, None, -1), None, False), ([2, 0, 1, 3], None, False), (slice(None), slice(None, None, 2), True), (slice(1, None), None, False)]:
+        base = [{"op": "init", "v": "a0", "rows": F, "dtype": "float64"}, {"op": "sel", "v": "a1", "u": "a0", "rs": sel[0], "cs": sel[1], "has_cs": sel[2]}]
+        n1 = len(prog.m_sel(F, *sel)[1])
+        col = [0.1, float("nan"), 1e17, 0.7][:n1]
+        for pre in (None, "sum1", "tolist", "any1"):
+            st = list(base) + ([{"op": "obs", "u": "a1", "what": pre, "arg": None}] if pre and pre in prog.OBS else [])
+            st += [{"op": "neg", "v": "a2", "u": "a1"}, {"op": "ufcol", "v": "a3", "u": "a2", "col": col, "side": "R"}, {"op": "ufcol", "v": "a4", "u": "a1", "col": col, "side": "L"},
+                   {"op": "obs", "u": "a3", "what": "tolist", "arg": None}, {"op": "obs", "u": "a4", "what": "tolist", "arg": None}]
+            yield {"steps": st, "hazard": False}
+    # np.diff with n = 0, 1, 2 followed by a write into the result: the source must not change
+    for nn in (0, 1, 2):
+        yield {"steps": [{"op": "init", "v": "a0", "rows": [[1, 4, 9], [2], [], [5, 5]]}, {"op": "diff", "v": "a1", "u": "a0", "n": nn},
+                         {"op": "assign", "u": "a1", "rs": Ellipsis, "cs": None, "has_cs": False, "vk": "scalar", "val": 777},
+                         {"op": "obs", "u": "a0", "what": "tolist", "arg": None}, {"op": "obs", "u": "a1", "what": "tolist", "arg": None}], "hazard": False}
     for _ in range(40):
         c = prog.gen_program(rng, "quick", allow_hazard=True)
         yield c
 
 
 def random_case(rng, tier):
-    return prog.gen_program(rng, tier, allow_hazard=rng.random() < 0.05)
+    return prog.gen_program(rng, tier, allow_hazard=rng.random() < 0.05, dtype="float64" if rng.random() < 0.3 else "int64", big=rng.random() < 0.06)
 
 
 def classify(case, res):
